@@ -254,6 +254,11 @@ inline bool BasicPromise::inplace_resumable() const noexcept {
 }
 
 inline void BasicPromise::resume(::std::coroutine_handle<> handle) noexcept {
+  // 未绑定executor的协程（例如Cancellable内部的代理协程）只能原地恢复
+  if (_executor == nullptr) {
+    handle.resume();
+    return;
+  }
   resume_in_executor(_executor, handle);
 }
 
